@@ -152,7 +152,8 @@ def run(ctx):
         text = content.decode("utf-8")
         for pos in [i for i, ch in enumerate(text) if ch == "<"][1::3]:
             xml_faults["content-cut@%d" % pos] = text[:pos].encode("utf-8")
-        for bad in ("0", "-1", "x", "1.5", ""):
+        # non-positive or non-numeric repeat counts, including texts for which str.isdigit() and int() disagree
+        for bad in ("0", "-1", "x", "1.5", "", "-0", "+0", "--2", "+-2", "\u00b2", "\u2460", "\u00bd", "1e2", "0x2", "2.0", " ", "1 2", "\u0661x", "\u0660", "2-"):
             xml_faults["repeat=%s" % bad] = content.replace(b"<table:table-cell ", b'<table:table-cell table:number-columns-repeated="%s" ' % bad.encode(), 1)
         for name, data in xml_faults.items():
             path = os.path.join(tmp, "fault.ods")
